@@ -121,6 +121,8 @@ type regenCase struct {
 	User            *cleanmodel.Node `json:"user"`              // pre-existing content of the output directory (nil: the directory does not exist)
 	WithTyperefImpl bool             `json:"with_typeref_impl"` // hand-written MyTyperef.go beside the generated code
 	Dot             bool             `json:"dot"`               // generator runs inside the output directory with output dir "."
+	// NoUserFiles: the output directory holds nothing but (stale) generator-owned files, so cleaning empties it
+	NoUserFiles bool `json:"no_user_files,omitempty"`
 }
 
 // populate builds the initial content of the output directory: the sampled user tree plus, below
@@ -131,6 +133,12 @@ func populate(c regenCase) *cleanmodel.Node {
 	}
 	r := rules()
 	root := &cleanmodel.Node{Dir: true, Mode: 0o755}
+	if c.NoUserFiles {
+		root.Children = append(root.Children, d("verif", d("c20", f("Stale.gr.go", "package c20\n// stale\n", 0o444)), d("old", f("Gone.gr.go", "package old\n", 0o444))),
+			f(r.Manifest, "stale manifest, not even JSON", 0o444))
+		must(root.Valid())
+		return root
+	}
 	for _, ch := range c.User.Children {
 		root.Children = append(root.Children, ch)
 	}
@@ -197,6 +205,9 @@ func checkRegen(rec *stats.Recorder, c regenCase) (msg string) {
 	}
 	if c.Dot {
 		labels = append(labels, "regen_output_dir_dot")
+	}
+	if c.NoUserFiles {
+		labels = append(labels, "regen_only_generator_owned_files")
 	}
 	rec.Case(labels...)
 	key := fmt.Sprint(c.WithTyperefImpl, c.Dot)
@@ -318,6 +329,11 @@ func genRegenCase(t *rapid.T) regenCase {
 	var c regenCase
 	c.WithTyperefImpl = rapid.Bool().Draw(t, "typeref_impl")
 	c.Dot = rapid.Bool().Draw(t, "dot")
+	if rapid.IntRange(0, 7).Draw(t, "no_user_files") == 0 {
+		c.WithTyperefImpl, c.NoUserFiles = false, true
+		c.User = &cleanmodel.Node{Dir: true, Mode: 0o755}
+		return c
+	}
 	if !c.Dot && !c.WithTyperefImpl && rapid.IntRange(0, 5).Draw(t, "out_missing") == 0 {
 		return c // output directory does not exist
 	}
@@ -353,6 +369,8 @@ func TestC20Regen(t *testing.T) {
 		{User: empty, WithTyperefImpl: true},
 		{User: empty, WithTyperefImpl: false},
 		{User: empty, WithTyperefImpl: true, Dot: true},
+		{User: empty, NoUserFiles: true, Dot: true},
+		{User: empty, NoUserFiles: true},
 		{User: nil},
 		{User: d("", f("README.md", "# mine\n", 0o644), d("emptydir"), d("other", f("keep.go", "package other\n", 0o600)), f("all_imports_test.gr.go", "stale", 0o444)), WithTyperefImpl: true, Dot: true},
 	}
